@@ -164,6 +164,13 @@ static bool find_in(const S& t, const S& v, bool last, tlx::string_view* out) {
     *out = tlx::string_view(t.data() + k, v.size()); return true;
 }
 
+// a user-supplied parameter struct for levenshtein_algorithm<>: other costs, coarser character equality
+struct WeightedParam {
+    static const unsigned int cost_insert_delete = 2;
+    static const unsigned int cost_replace = 3;
+    static bool char_equal(const char& a, const char& b) { return (a | 0x20) == (b | 0x20); }
+};
+
 static VS parts_of(std::istringstream& in) {
     size_t n; in >> n; VS v; S t;
     for (size_t i = 0; i < n; ++i) { in >> t; v.push_back(unhex(t)); }
@@ -482,6 +489,7 @@ static S run_case(const S& line) {
         S ha, hb; in >> ha >> hb; S a = unhex(ha), b = unhex(hb); Exact xa(a), xb(b);
         size_t d = tlx::levenshtein(xa.view(), xb.view()), di = tlx::levenshtein_icase(xa.view(), xb.view());
         out << "d=" << d << " di=" << di;
+        py << " lw=" << tlx::levenshtein_algorithm<WeightedParam>(xa.p, xa.n, xb.p, xb.n);     // judged by the Python oracle only
         {
             S expect = out.str();
             alias_check(out, "levenshtein/levenshtein_icase", {a, b}, expect, [&](const Layout& y) {
